@@ -542,7 +542,7 @@ def p4(h, st):
     it = GenericGateOfAnyCircuit(h, g, n, "cirq")
     c.__dict__ = {"_gates": it, "_qubit_indices": set(range(n)), "_qubits_simulated": n, "name": "any", "_gate_counts": {}, "_n_qubit_gate_counts": {}, "_variational_gates": []}
     out = h.call(TC, "translate_c_to_cirq", c)
-    h.check("the loop body was entered once for the generic gate", it.iterations == 1)
+    h.shape("the loop body was entered once for the generic gate", it.iterations == 1)
     h.check("the accumulated circuit is returned", isinstance(out, fakes.CCircuit))
     h.done()
 
@@ -564,6 +564,6 @@ def p3(h, st):
     it = GenericGateOfAnyCircuit(h, g, n, "sympy")
     c.__dict__ = {"_gates": it, "_qubit_indices": set(range(n)), "_qubits_simulated": n, "name": "any"}
     h.call(TS, "translate_c_to_sympy", c)
+    h.shape("the loop body was entered once for the generic gate", it.iterations == 1)
     h.check("gates are visited in reversed order", it.reversed is True)
-    h.check("the loop body was entered once for the generic gate", it.iterations == 1)
     h.done()
